@@ -61,25 +61,34 @@ theorem goodBlock_of_bound (cfg : Cfg) (bs : Nat) (hP : Params cfg bs) (es : Lis
     · have := sizeSum_ge es he; have := hb.size; omega
   · have := hb.size; have := hP.maxLe; omega
 
-theorem goodBlock_snoc (cfg : Cfg) (bs : Nat) (hP : Params cfg bs) (es : List Entry) (e : Entry)
-    (hb : BufBound cfg bs es) (he : ∀ x ∈ es, EntryOK x) (hx : EntryOK e) : GoodBlock (es ++ [e]) := by
-  have hall : ∀ x ∈ es ++ [e], EntryOK x := by
+theorem goodBlock_cons (cfg : Cfg) (bs : Nat) (hP : Params cfg bs) (es : List Entry) (e : Entry)
+    (hb : BufBound cfg bs es) (he : ∀ x ∈ es, EntryOK x) (hx : EntryOK e) : GoodBlock (e :: es) := by
+  have hall : ∀ x ∈ e :: es, EntryOK x := by
     intro x hm
-    rcases List.mem_append.mp hm with h | h
+    rcases List.mem_cons.mp hm with h | h
+    · subst h; exact hx
     · exact he x h
-    · simp at h; subst h; exact hx
   refine ⟨fun x h => (hall x h).1, ?_, ?_⟩
-  · simp only [List.length_append, List.length_singleton]
+  · simp only [List.length_cons]
     rcases hP.count with hc | hc
     · have := hb.count hc; omega
     · have := sizeSum_ge es he; have := hb.size; omega
-  · rw [sizeSum_append]
-    have := hb.size; have := hP.maxLe
+  · have := hb.size; have := hP.maxLe
     have h1 := hx.2
     have h2 := hx.1.2.1
-    have hs : sizeSum [e] = 7 + e.key.length + e.data.length := by simp [sizeSum, Entry.size]
+    have hs : sizeSum (e :: es) = (7 + e.key.length + e.data.length) + sizeSum es := by simp [sizeSum, Entry.size]
     rw [hs]
     omega
+
+theorem sizeSum_reverse (es : List Entry) : sizeSum es.reverse = sizeSum es := by
+  induction es with
+  | nil => rfl
+  | cons e es ih =>
+    rw [List.reverse_cons, sizeSum_append, ih]
+    simp [sizeSum]; omega
+
+theorem goodBlock_reverse (es : List Entry) (h : GoodBlock es) : GoodBlock es.reverse :=
+  ⟨fun e he => h.enc e (List.mem_reverse.mp he), by simpa using h.count, by rw [sizeSum_reverse]; exact h.size⟩
 
 /-- the open session's own state -/
 structure SessOK (cfg : Cfg) (bs : Nat) (name : Bytes) (s : Sess) : Prop where
@@ -88,9 +97,10 @@ structure SessOK (cfg : Cfg) (bs : Nat) (name : Bytes) (s : Sess) : Prop where
   hn : s.hdr.nameLength = name.length
   bc : s.blockCount < 2 ^ 64
   ec : s.entryCount < 2 ^ 64
-  enc : ∀ e ∈ s.buf, EntryOK e
-  size : s.bufSize = sizeSum s.buf
-  below : BufBound cfg bs s.buf
+  enc : ∀ e ∈ s.bufRev, EntryOK e
+  size : s.bufSize = sizeSum s.bufRev
+  cnt : s.bufCount = s.bufRev.length
+  below : BufBound cfg bs s.bufRev
 
 /-- the on-disk shape -/
 structure FileOK (codec : Codec) (crc : Checksum) (name : Bytes) (file : Bytes)
@@ -120,27 +130,27 @@ theorem flushSess_ok (cfg : Cfg) (codec : Codec) (crc : Checksum) (bs : Nat) (hP
     (hF : FileOK codec crc name file blocks) (hS : SessOK cfg bs name s) :
     ∃ blocks', FileOK codec crc name (flushSess codec crc file s).1 blocks' ∧
       SessOK cfg bs name (flushSess codec crc file s).2 ∧
-      (flushSess codec crc file s).2.buf = [] ∧
-      blocks'.flatten = blocks.flatten ++ s.buf := by
+      (flushSess codec crc file s).2.bufRev = [] ∧
+      blocks'.flatten = blocks.flatten ++ s.bufRev.reverse := by
   unfold flushSess
-  cases hbuf : s.buf with
+  cases hbuf : s.bufRev with
   | nil =>
     simp only [List.isEmpty_nil, if_true]
     refine ⟨blocks, hF, hS, ?_, ?_⟩ <;> simp [hbuf]
   | cons e t =>
     simp only [List.isEmpty_cons, Bool.false_eq_true, if_false]
     obtain ⟨⟨hdr, hfile, _, _, _⟩, hgood⟩ := hF
-    have hgb : GoodBlock (e :: t) := by
-      rw [← hbuf]; exact goodBlock_of_bound cfg bs hP s.buf hS.below hS.enc
+    have hgb : GoodBlock (e :: t).reverse := by
+      rw [← hbuf]; exact goodBlock_reverse _ (goodBlock_of_bound cfg bs hP s.bufRev hS.below hS.enc)
     have hbc : (s.blockCount + 1) % 2 ^ 64 < 2 ^ 64 := Nat.mod_lt _ (by decide)
     have hec : (s.entryCount + (e :: t).length % 2 ^ 16) % 2 ^ 64 < 2 ^ 64 := Nat.mod_lt _ (by decide)
-    refine ⟨blocks ++ [e :: t], ⟨⟨_, ?_, valid_setCounts s.hdr hS.hv _ _ hbc hec, hS.h3, hS.hn⟩, ?_⟩, ?_, by simp, by simp⟩
+    refine ⟨blocks ++ [(e :: t).reverse], ⟨⟨_, ?_, valid_setCounts s.hdr hS.hv _ _ hbc hec, hS.h3, hS.hn⟩, ?_⟩, ?_, by simp, by simp⟩
     · rw [hfile, render_append_block, rewriteHeader_render]
     · intro b hb
       rcases List.mem_append.mp hb with h | h
       · exact hgood b h
-      · simp at h; subst h; exact hgb
-    · exact ⟨valid_setCounts s.hdr hS.hv _ _ hbc hec, hS.h3, hS.hn, hbc, hec, by simp, by simp [sizeSum],
+      · simp only [List.mem_singleton] at h; subst h; exact hgb
+    · exact ⟨valid_setCounts s.hdr hS.hv _ _ hbc hec, hS.h3, hS.hn, hbc, hec, by simp, by simp [sizeSum], by simp,
         bufBound_nil cfg bs⟩
 
 /-- the extra header rewrite of `Sync`/`Close` changes nothing but the header -/
@@ -149,8 +159,8 @@ theorem finishSess_ok (cfg : Cfg) (codec : Codec) (crc : Checksum) (bs : Nat) (h
     (hF : FileOK codec crc name file blocks) (hS : SessOK cfg bs name s) :
     ∃ blocks', FileOK codec crc name (finishSess codec crc file s).1 blocks' ∧
       SessOK cfg bs name (finishSess codec crc file s).2 ∧
-      (finishSess codec crc file s).2.buf = [] ∧
-      blocks'.flatten = blocks.flatten ++ s.buf := by
+      (finishSess codec crc file s).2.bufRev = [] ∧
+      blocks'.flatten = blocks.flatten ++ s.bufRev.reverse := by
   obtain ⟨blocks', hF', hS', hb', hfl⟩ := flushSess_ok cfg codec crc bs hP name file blocks s hF hS
   unfold finishSess
   generalize flushSess codec crc file s = r at hF' hS' hb'
@@ -160,20 +170,20 @@ theorem finishSess_ok (cfg : Cfg) (codec : Codec) (crc : Checksum) (bs : Nat) (h
   have hv' := valid_setCounts s1.hdr hS'.hv s1.blockCount s1.entryCount hS'.bc hS'.ec
   refine ⟨blocks', ⟨⟨_, ?_, hv', hS'.h3, hS'.hn⟩, hgood⟩, ?_, hb', hfl⟩
   · rw [hfile, rewriteHeader_render]
-  · exact ⟨hv', hS'.h3, hS'.hn, hS'.bc, hS'.ec, hS'.enc, hS'.size, hS'.below⟩
+  · exact ⟨hv', hS'.h3, hS'.hn, hS'.bc, hS'.ec, hS'.enc, hS'.size, hS'.cnt, hS'.below⟩
 
 /-- `openExistingFile` on a file the writer left behind -/
 theorem openExisting_ok (cfg : Cfg) (codec : Codec) (crc : Checksum) (bs : Nat) (name file : Bytes)
     (blocks : List (List Entry)) (hF : FileOK codec crc name file blocks) :
-    ∃ s, openExisting file = some s ∧ SessOK cfg bs name s ∧ s.buf = [] := by
+    ∃ s, openExisting file = some s ∧ SessOK cfg bs name s ∧ s.bufRev = [] := by
   obtain ⟨⟨hdr, hfile, hv, h3, hn⟩, _⟩ := hF
   have hl := encodeFileHeader_length hdr
-  refine ⟨⟨hdr, [], 0, hdr.blockCount, hdr.entryCount⟩, ?_, ?_, rfl⟩
+  refine ⟨⟨hdr, [], 0, 0, hdr.blockCount, hdr.entryCount⟩, ?_, ?_, rfl⟩
   · unfold openExisting
     rw [hfile]
     unfold render
     rw [if_neg (by simp [hl]), take_append_len _ _ 64 hl, decodeFileHeader_encode hdr hv]
-  · exact ⟨hv, h3, hn, hv.blockCount, hv.entryCount, by simp, by simp [sizeSum], bufBound_nil cfg bs⟩
+  · exact ⟨hv, h3, hn, hv.blockCount, hv.entryCount, by simp, by simp [sizeSum], by simp, bufBound_nil cfg bs⟩
 
 /-- The invariant that ties the disk, the buffer and the acknowledged writes together. -/
 structure Inv (cfg : Cfg) (codec : Codec) (crc : Checksum) (bs : Nat) (name : Bytes)
@@ -228,37 +238,40 @@ theorem step_inv (cfg : Cfg) (codec : Codec) (crc : Checksum) (bs : Nat) (hP : P
           simp only [Bool.not_eq_true] at h1 h2
           simp only [h1, h2, Bool.false_eq_true, if_false, Bool.not_false, Bool.and_self, if_true]
           -- the session after `buffer.Add`
-          have hS1pre : ∀ x ∈ s.buf ++ [e], EntryOK x := by
+          have hS1pre : ∀ x ∈ e :: s.bufRev, EntryOK x := by
             intro x hm
-            rcases List.mem_append.mp hm with h | h
+            rcases List.mem_cons.mp hm with h | h
+            · subst h; exact hok
             · exact hS.enc x h
-            · simp at h; subst h; exact hok
-          have hsz : s.bufSize + e.size = sizeSum (s.buf ++ [e]) := by
-            rw [sizeSum_append, hS.size]; simp [sizeSum]
-          by_cases hfl : shouldFlush cfg bs (s.bufSize + e.size) (s.buf ++ [e]).length = true
+          have hsz : s.bufSize + e.size = sizeSum (e :: s.bufRev) := by
+            rw [hS.size]; simp [sizeSum]; omega
+          have hcnt : s.bufCount + 1 = (e :: s.bufRev).length := by simp [hS.cnt]
+          by_cases hfl : shouldFlush cfg bs (s.bufSize + e.size) (s.bufCount + 1) = true
           · simp only [hfl, if_true]
             -- flush of the extended buffer: one new block
-            have hgb : GoodBlock (s.buf ++ [e]) := goodBlock_snoc cfg bs hP s.buf e hS.below hS.enc hok
+            have hgb : GoodBlock (e :: s.bufRev).reverse :=
+              goodBlock_reverse _ (goodBlock_cons cfg bs hP s.bufRev e hS.below hS.enc hok)
             obtain ⟨⟨hdr, hfile, _, _, _⟩, hgood⟩ := hF
             simp only at hfile
             have hbc : (s.blockCount + 1) % 2 ^ 64 < 2 ^ 64 := Nat.mod_lt _ (by decide)
-            have hec : (s.entryCount + (s.buf ++ [e]).length % 2 ^ 16) % 2 ^ 64 < 2 ^ 64 := Nat.mod_lt _ (by decide)
-            have hne : (s.buf ++ [e]).isEmpty = false := by simp
+            have hec : (s.entryCount + (e :: s.bufRev).length % 2 ^ 16) % 2 ^ 64 < 2 ^ 64 := Nat.mod_lt _ (by decide)
+            have hne : (e :: s.bufRev).isEmpty = false := by simp
             simp only [flushSess, hne, Bool.false_eq_true, if_false]
-            refine ⟨⟨blocks ++ [s.buf ++ [e]], ⟨⟨_, ?_, valid_setCounts s.hdr hS.hv _ _ hbc hec, hS.h3, hS.hn⟩, ?_⟩, ?_⟩, ?_, rfl⟩
+            refine ⟨⟨blocks ++ [(e :: s.bufRev).reverse], ⟨⟨_, ?_, valid_setCounts s.hdr hS.hv _ _ hbc hec, hS.h3, hS.hn⟩, ?_⟩, ?_⟩, ?_, rfl⟩
             · show rewriteHeader (file ++ _) _ = _
               rw [hfile, render_append_block, rewriteHeader_render]
             · intro b hb
               rcases List.mem_append.mp hb with h | h
               · exact hgood b h
-              · simp at h; subst h; exact hgb
-            · simp only [St.pending, List.flatten_append, List.flatten_cons, List.flatten_nil, List.append_nil]
+              · simp only [List.mem_singleton] at h; subst h; exact hgb
+            · simp only [St.pending, List.flatten_append, List.flatten_cons, List.flatten_nil, List.append_nil,
+                List.reverse_nil]
               rw [← hacc]; simp
             · intro s' h'
               simp at h'
               subst h'
               exact ⟨valid_setCounts s.hdr hS.hv _ _ (Nat.mod_lt _ (by decide)) (Nat.mod_lt _ (by decide)), hS.h3, hS.hn,
-                Nat.mod_lt _ (by decide), Nat.mod_lt _ (by decide), by simp, by simp [sizeSum], bufBound_nil cfg bs⟩
+                Nat.mod_lt _ (by decide), Nat.mod_lt _ (by decide), by simp, by simp [sizeSum], by simp, bufBound_nil cfg bs⟩
           · simp only [Bool.not_eq_true] at hfl
             simp only [hfl, Bool.false_eq_true, if_false]
             refine ⟨⟨blocks, hF, ?_⟩, ?_, rfl⟩
@@ -266,20 +279,20 @@ theorem step_inv (cfg : Cfg) (codec : Codec) (crc : Checksum) (bs : Nat) (hP : P
             · intro s' h'
               simp at h'
               subst h'
-              refine ⟨hS.hv, hS.h3, hS.hn, hS.bc, hS.ec, hS1pre, hsz, ?_⟩
+              refine ⟨hS.hv, hS.h3, hS.hn, hS.bc, hS.ec, hS1pre, hsz, hcnt, ?_⟩
               apply bufBound_of_noFlush
-              rw [← hsz]; exact hfl
+              rw [← hsz, ← hcnt]; exact hfl
     | flush =>
       obtain ⟨blocks', hF', hS', hb', hfl⟩ := flushSess_ok cfg codec crc bs hP name file blocks s hF hS
       simp only [step, acceptedBy, List.append_nil, openAfter]
       refine ⟨⟨blocks', hF', ?_⟩, ?_, rfl⟩
-      · simp only [St.pending, hb', List.append_nil, hfl]; exact hacc
+      · simp only [St.pending, hb', List.reverse_nil, List.append_nil, hfl]; exact hacc
       · intro s' h'; simp at h'; subst h'; exact hS'
     | sync =>
       obtain ⟨blocks', hF', hS', hb', hfl⟩ := finishSess_ok cfg codec crc bs hP name file blocks s hF hS
       simp only [step, acceptedBy, List.append_nil, openAfter]
       refine ⟨⟨blocks', hF', ?_⟩, ?_, rfl⟩
-      · simp only [St.pending, hb', List.append_nil, hfl]; exact hacc
+      · simp only [St.pending, hb', List.reverse_nil, List.append_nil, hfl]; exact hacc
       · intro s' h'; simp at h'; subst h'; exact hS'
     | close =>
       obtain ⟨blocks', hF', _, _, hfl⟩ := finishSess_ok cfg codec crc bs hP name file blocks s hF hS
@@ -334,7 +347,7 @@ theorem createFile_inv (cfg : Cfg) (codec : Codec) (crc : Checksum) (bs : Nat) (
   · intro s hs
     simp [createFile] at hs
     subst hs
-    exact ⟨hv, rfl, hmod, by simp, by simp, by simp, by simp [sizeSum], bufBound_nil cfg bs⟩
+    exact ⟨hv, rfl, hmod, by simp, by simp, by simp, by simp [sizeSum], by simp, bufBound_nil cfg bs⟩
 
 /-- What is on disk after a history loads to the replay of the acknowledged writes that have
     left the buffer — for every lawful codec, checksum, block size (within `Params`), name,
